@@ -21,6 +21,10 @@ use std::io::Write;
 use super::class_inheritance;
 
 pub const ITER_CLASS_NAME: &str = "Iter";
+
+/// The most elements collected lists reserve up front. A size hint is only a
+/// hint and may be far beyond what can be allocated
+pub const MAX_COLLECT_RESERVE: usize = u16::MAX as usize;
 const ITER_STR: NativeMetaBuilder = NativeMetaBuilder::method("str", Arity::Fixed(0));
 
 /// This might need to have a stack once we implement yield or the iterator class
@@ -925,7 +929,7 @@ impl LyNative for IterToList {
   fn call(&self, hooks: &mut Hooks, args: &[Value]) -> Call {
     let mut iter = args[0].to_obj().to_enumerator();
     let mut list = List::new(match iter.size_hint() {
-      Some(size) => hooks.manage_obj(VecBuilder::cap_only(size)),
+      Some(size) => hooks.manage_obj(VecBuilder::cap_only(size.min(MAX_COLLECT_RESERVE))),
       None => hooks.manage_obj(list!()),
     });
 
